@@ -6,7 +6,7 @@ linear-operator rule (axis tables), dtype rule, aliasing rule.
 import itertools
 import numpy as np
 
-from .domain import (DataT, Term, AxisTable, Form, ZERO_FORM, Q2, ONE, Poly, POLY_ONE, HOOKS, TorchSize,
+from .domain import (Base, DataT, Term, AxisTable, Form, ZERO_FORM, Q2, ONE, Poly, POLY_ONE, HOOKS, TorchSize,
                      is_const_scalar, canon_cell)
 from .sym import Sym, factor_kernel
 from .errors import AnalysisError, PyExc
@@ -66,6 +66,35 @@ def zeros(shape, dtype, device='dev', requires_grad=False):
     t.requires_grad = bool(requires_grad)
     t.zero_const = True
     return t
+
+
+def opaque(shape, dtype, role, label, device='dev', like_dims=None):
+    """A tensor whose contents are not a function of the inputs: a non-zero constant fill (role 'const') or
+    uninitialised memory (role 'uninit').  Modelled as one more symbolic input, so that every value that still depends
+    on it when it reaches an output shows up there (as an offset / as garbage) and is reported by the comparison."""
+    shape = [int(s) for s in shape]
+    if like_dims is not None and [s for _, s in like_dims] == shape:
+        dims = [tuple(d) for d in like_dims]
+    else:
+        n = len(shape)
+        dims = [('S', s) if (n >= 4 and i >= n - 2) else ('E', s) for i, s in enumerate(shape)]
+    b = Base(label, dims, dtype=dtype, role=role)
+    t = b.tensor(origin='fresh')
+    t.device = device
+    t.base_of = None
+    return t
+
+
+def opaque_roles(t):
+    """roles ('const' / 'uninit') of the opaque bases tensor t still depends on"""
+    out = set()
+    if not isinstance(t, DataT) or getattr(t, 'nl', False):
+        return out
+    for idx in np.ndindex(*t.cells.shape):
+        for term in t.cells[idx]:
+            if term.base.role in ('const', 'uninit'):
+                out.add((term.base.role, term.base.name))
+    return out
 
 
 def retag_dims(t, dims):
